@@ -184,6 +184,14 @@ struct Ctx {
   std::map<std::string, uint64_t> violKeys;
   uint64_t violations = 0;
   uint64_t cases = 0;
+  // order-independent digest of result bit patterns (sum over cases), used to
+  // compare two build configurations run on the same seed
+  uint64_t digestSum = 0;
+  bool haveDigest = false;
+  void digest(uint64_t caseDigest) {
+    digestSum += mix(caseId, caseDigest);
+    haveDigest = true;
+  }
   volatile uint64_t *progress = nullptr;
 
   Rng rng(uint64_t stream = 0) const {
@@ -259,7 +267,11 @@ struct Ctx {
       fprintf(out, "%s\"%s\"", first ? "" : ",", jesc(s).c_str());
       first = false;
     }
-    fprintf(out, "],\"hashes\":[");
+    if (haveDigest)
+      fprintf(out, "],\"digest\":\"%016llx\",\"hashes\":[",
+              (unsigned long long)digestSum);
+    else
+      fprintf(out, "],\"hashes\":[");
     first = true;
     for (auto h : hashes) {
       fprintf(out, "%s\"%llx\"", first ? "" : ",", (unsigned long long)h);
